@@ -42,15 +42,17 @@ def valid_variants(text: str):
     # attribute order: version before id on the lexicon start tag
     yield 'lexicon-on-one-line', re.sub(r'\n\s+(label|language|email|license|version|url|citation|logo|dc:\w+|status|'
                                         r'note|confidenceScore)=', r' \1=', text)
-    yield 'spaces-around-eq', re.sub(r'<Lexicon id=', '<Lexicon  id =', text).replace('id =', 'id=')
     yield 'trailing-whitespace-header', text.replace('?>\n', '?>  \n', 1)
-    yield 'comment-before-lexicon', text.replace('<LexicalResource', '<!-- a <Lexicon id="c" version="9"> in a comment '
-                                                 '-->\n<LexicalResource', 1) if False else text
     # known finding K6: the pre-scan is a regular expression, not an XML parser
     yield 'K6:label-with-gt', re.sub(r'label="[^"]*"', 'label="a > b"', text, count=1)
     yield 'K6:label-with-apostrophe', re.sub(r'label="[^"]*"', 'label="it\'s"', text, count=1)
     yield 'K6:label-with-entity', re.sub(r'label="[^"]*"', 'label="a &amp; b"', text, count=1)
     yield 'K6:citation-quoting-an-id', re.sub(r'citation="[^"]*"', 'citation=\'see id="zzz"\'', text, count=1)
+    yield 'K6:spaces-around-eq', re.sub(r'<Lexicon id=', '<Lexicon  id = ', text, count=1)
+    yield 'K6:comment-with-a-lexicon-tag', text.replace(
+        '<LexicalResource', '<!-- a <Lexicon id="c" version="9"> in a comment -->\n<LexicalResource', 1)
+    yield 'K6:empty-label', re.sub(r'label="[^"]*"', 'label=""', text, count=1)
+    yield 'K6:line-break-in-label', re.sub(r'label="[^"]*"', 'label="two\nlines"', text, count=1)
 
 
 def faults(text: str, version: str):
@@ -67,6 +69,9 @@ def faults(text: str, version: str):
     yield 'unknown-element', text.replace('<Synset ', '<Foo/><Synset ', 1)
     yield 'renamed-element', text.replace('<Lemma ', '<Lema ', 1).replace('</Lemma>', '</Lema>', 1) \
         if '</Lemma>' in text else text.replace('<Lemma ', '<Lema ', 1)
+    # known finding K25: nothing to add for the regex pre-scan -> add() returns without ever parsing the document
+    yield 'K25:renamed-lexicon', text.replace('<Lexicon ', '<Lexicn ', 1).replace('</Lexicon>', '</Lexicn>', 1) \
+        if '<Lexicon ' in text else text
     if version == '1.0':
         yield 'element-of-later-version:Pronunciation', re.sub(r'(<Lemma [^>]*?)/>', r'\1><Pronunciation>x</Pronunciation></Lemma>', text, count=1) \
             if re.search(r'<Lemma [^>]*/>', text) else text.replace('</Lemma>', '<Pronunciation>x</Pronunciation></Lemma>', 1)
